@@ -582,18 +582,35 @@ def g6(e: Engine, rep: Report, rule: str):
         if mname == '_append_line':
             continue
         ctx = Ctx(m, READER)
-        g = e.build(ctx, raises=lambda b, n, r: set())
+        g = e.build(ctx, raises=lambda b, n, r: set(),
+                    inline=e.inline_same_self(deny=['_append_line',
+                                                    'handle_finished_line']),
+                    max_depth=3)
         apps = [n for n in g.calls() if e.call_name(n) == '_append_line'
-                and n.ast.args]
+                and n.ast.args and n.frame is g.entry.frame]
         if not apps:
             continue
         where = m.qname
         rep.functions.add(where)
 
+        def limit_test(n):
+            # a branch on max_size (none configured / size compared with
+            # it): the limit was looked at
+            return n.kind == 'test' and 'max_size' in ast.unparse(n.ast)
+
+        def past_eod(n):
+            # the false edge of `self.EOD is None`: these bytes do not
+            # belong to the message, nothing to count or to limit
+            return n.kind == 'test' and \
+                ast.unparse(n.ast) == 'self.EOD is None'
+
         def counted(n):
+            if limit_test(n):
+                return ['lim']
             if n.kind in ('call', 'call_enter') and \
-                    e.call_name(n) in counters and n.ast.args:
-                return ['cnt:' + ast.unparse(n.ast.args[0])]
+                    e.call_name(n) in counters and n.ast.args and \
+                    n.frame is g.entry.frame:
+                return ['cnt:' + ast.unparse(n.ast.args[0]), '-lim']
             if n.kind == 'stmt' and isinstance(n.ast, ast.AugAssign) and \
                     ast.unparse(n.ast.target) == 'self.size' and \
                     isinstance(n.ast.value, ast.Call) and \
@@ -609,11 +626,17 @@ def g6(e: Engine, rep: Report, rule: str):
                 return ['*']
             return []
         before = {}
-        st0 = dataflow.forward(
-            g, frozenset(),
-            lambda n, st: (frozenset() if n.kind == 'iter' else st)
-            | frozenset(counted(n)),
-            lambda a, b: a & b)
+        def tr(n, st):
+            if n.kind == 'iter' and n.frame is g.entry.frame:
+                st = frozenset()
+            ev = counted(n)
+            if '-lim' in ev:
+                st = st - {'lim'}
+            st = st | frozenset(x for x in ev if x != '-lim')
+            if past_eod(n):
+                return {'T': st, 'F': st | {'lim'}, None: st}
+            return st
+        st0 = dataflow.forward(g, frozenset(), tr, lambda a, b: a & b)
         for a in apps:
             n_app += 1
             rep.evaluations += 1
@@ -628,6 +651,18 @@ def g6(e: Engine, rep: Report, rule: str):
                       'was cut (pipelined with DATA or not)' % arg,
                       loc=a.loc(), reason='self.size += len(%s) on every '
                       'path before, in the same iteration' % arg)
+            rep.evaluations += 1
+            rep.check('lim' in (st0.get(a.id) or ()), rule, where,
+                      'the limit is tested after counting `%s`, before it '
+                      'enters the message' % arg,
+                      'between counting `%s` and appending it the size is '
+                      'not compared with max_size: the limit is looked at '
+                      'only at some later point (e.g. once per read), so an '
+                      'over-size message whose end-of-data line arrives in '
+                      'the same read is accepted - the outcome depends on '
+                      'the segmentation' % arg, loc=a.loc(),
+                      reason='a size/max_size test on every path between '
+                      'the count and the append')
     if n_app < 2:
         rep.error('anchor vanished: _append_line sites (%d < 2)' % n_app)
     # (b) counting and the limit test: only message bytes count, and the
